@@ -81,6 +81,10 @@ def joining(obs):
 
 def property_on_impl(obs):
     """the property as worded, on what the implementation built (None = holds / not decidable)"""
+    mi = obs.get('min_seglen_impl')
+    if mi is not None and abs(mi - obs['min_seglen']) > 1e-9 * obs['min_seglen']:
+        return ('the joining tolerance is taken from a segment of length %.6g, the shortest segment of the structure is %.6g'
+                % (mi, obs['min_seglen']))
     jn = joining(obs)
     if jn:
         return jn
@@ -127,10 +131,74 @@ def curved_cases():
         a, b = [float(x) for x in g.endpoints[0]], [float(x) for x in g.endpoints[1]]
         return [Helix(10, 1.0, 0.5, 0.002, 0.3, 0.3), W(4, b, a)]
     out.append(('helix + return wire', helix_loop))
+
+    def cone(narrow_end, gap):
+        # a helix whose radius shrinks (or grows) along its length: its segments are not equally long; a wire
+        # starts `gap` joining tolerances from one of its ends
+        args = (10, 1.0, 0.5, 0.002, 0.6, 0.6, 0.1, 0.1) if narrow_end == 1 else (10, 1.0, 0.5, 0.002, 0.1, 0.1, 0.6, 0.6)
+        m0 = Mininec(10.0, [Helix(*args)])
+        g = m0.geo[0]
+        tol = 1e-3 * min(math.dist([float(x) for x in sg.p1], [float(x) for x in sg.p2]) for sg in g.segments)
+        e = [float(x) for x in g.endpoints[1]]
+        q = (e[0] + gap * tol, e[1], e[2])
+        return [Helix(*args), W(3, q, (q[0] + 0.5, q[1] + 0.2, q[2] + 0.4))]
+    for ne in (0, 1):
+        for gap in (0.5, 3.0):
+            out.append(('conical helix (narrow end %d) + wire %.1f tolerances from its second end' % (ne + 1, gap),
+                        lambda ne=ne, gap=gap: cone(ne, gap)))
+    return out
+
+
+def minseg_tie(d, m):
+    """`Mininec.min_seglen` vs the model's `minSegLen` on the implementation's own segment lengths (1e-12 relative)"""
+    toks = ['topo minseg', len(m.geo)]
+    for g in m.geo:
+        toks.append(len(g.segments))
+        toks += [f2b(float(sg.seg_len)) for sg in g.segments]
+    ans = d.ask(*toks)
+    from common import b2f
+    # a wire tapered from both ends reports its first segment, which equals its last one up to rounding: 1e-12
+    if abs(b2f(ans.strip()) - float(m.min_seglen)) > 1e-12 * float(m.min_seglen):
+        return 'shortest segment: implementation %r, model %r' % (float(m.min_seglen), b2f(ans.strip()))
+    return None
+
+
+def tapered_cases(rng):
+    """a tapered wire (from end 1, from end 2, from both ends) and a second wire that starts 0.5 or 3 joining
+    tolerances from one of its ends: the tolerance is 1/1000 of the *shortest* segment, wherever that segment is"""
+    from mininec.mininec import Mininec, Wire
+    out = []
+    for segtype in (1, 2, 3):
+        for end in (0, 1):
+            for gap in (0.5, 3.0):
+                n = rng.randint(5, 8)
+                L = rng.uniform(3.0, 12.0)
+                r = L / n / rng.choice([200, 500])
+                p0, p1 = (0.5, -0.25, 1.0), (0.5, -0.25, 1.0 + L)
+
+                def mk(segtype=segtype, end=end, gap=gap, n=n, r=r, p0=p0, p1=p1):
+                    a = Wire(n, *p0, *p1, r)
+                    a.segtype = segtype
+                    m0 = Mininec(10.0, [a])
+                    tol = 1e-3 * min(math.dist([float(x) for x in sg.p1], [float(x) for x in sg.p2]) for sg in m0.geo[0].segments)
+                    e = p0 if end == 0 else p1
+                    q = (e[0] + gap * tol, e[1], e[2])
+                    a2 = Wire(n, *p0, *p1, r)
+                    a2.segtype = segtype
+                    return [a2, Wire(3, *q, q[0] + 2.0, q[1] + 0.5, q[2], r)]
+                out.append(('taper type %d, second wire %.1f tolerances from end %d' % (segtype, gap, end + 1), mk))
     return out
 
 
 def replay(rp):
+    if rp.get('kind') == 'tapered':
+        import random
+        from mininec.mininec import Mininec
+        mk = dict(tapered_cases(random.Random(rp['rng_seed'])))[rp['name']]
+        m = Mininec(10.0, mk())
+        bad = topo.pulse_geometry_bad(m) or property_on_impl(topo.observe_impl(m))
+        print('replay', rp['name'], '->', bad or 'property holds')
+        return 1 if bad else 0
     if rp.get('kind') == 'curved':
         from mininec.mininec import Mininec
         mk = dict(curved_cases())[rp['name']]
@@ -165,6 +233,10 @@ def run(ck):
             ck.count(k, v)
         ck.count('fuzzed' if spec['fuzz'] else 'exact')
         ck.count('ground' if spec['ground'] else 'free')
+        if i % 10 == 0:
+            wm = minseg_tie(d, m)
+            if wm:
+                dis.append(dict(spec=spec, why=wm))
         gb = topo.pulse_geometry_bad(m)
         if gb:
             ck.violation(dict(kind='topology', spec=spec, observed=gb))
@@ -189,10 +261,29 @@ def run(ck):
             ck.violation(dict(kind='curved', name=name, observed='structure rejected: %s: %s' % (type(e).__name__, e)))
             return
         obs = topo.observe_impl(m)
+        why = minseg_tie(d, m)
+        if why:
+            dis.append(dict(spec=dict(curved=name), why=why))
         ck.case(('curved', name), True)
         bad = topo.pulse_geometry_bad(m) or property_on_impl(obs)
         if bad:
             ck.violation(dict(kind='curved', name=name, observed=bad))
+            return
+    import random
+    tseed = ck.rng.randrange(10 ** 9)
+    for name, mk in tapered_cases(random.Random(tseed)):
+        try:
+            m = Mininec(10.0, mk())
+        except Exception as e:
+            ck.violation(dict(kind='tapered', name=name, rng_seed=tseed, observed='structure rejected: %s: %s' % (type(e).__name__, e)))
+            return
+        ck.case(('tapered', name), True)
+        why = minseg_tie(d, m)
+        if why:
+            dis.append(dict(spec=dict(tapered=name), why=why))
+        bad = topo.pulse_geometry_bad(m) or property_on_impl(topo.observe_impl(m))
+        if bad:
+            ck.violation(dict(kind='tapered', name=name, rng_seed=tseed, observed=bad))
             return
     ck.stats['disagreements'] = len(dis)
     ck.cov['rule'] = ('random wire graphs on a small grid (chains, stars, loops, several components, 1-4 segments per wire, '
@@ -204,6 +295,8 @@ def run(ck):
     if dis or ck.broken:
         found = False
         for dg in dis[:50]:
+            if 'wires' not in dg['spec']:
+                continue
             m = topo.build_impl(dg['spec'])
             bad = property_on_impl(topo.observe_impl(m))
             if bad:
